@@ -95,6 +95,7 @@ func (s *Sched) Steps() int { s.mu.Lock(); defer s.mu.Unlock(); return s.steps }
 
 var blockedStates = []string{"chan receive", "chan send", "select", "semacquire", "sync.Mutex.Lock", "sync.RWMutex",
 	"sync.WaitGroup.Wait", "sync.Cond.Wait", "IO wait", "sync.Once"}
+
 // (a goroutine of interest in "GC assist wait", "sleep" or similar will run again by itself: it counts as running)
 
 // snapshot returns (number of runnable goroutines of interest, signature of the pending set).
